@@ -1,6 +1,7 @@
 """Generic analyses the rules are built from: switch decoding, dominating conditions,
 interval arithmetic, lock regions, effect classes."""
 import re
+import names as NM
 from mir import Call, canon, loc, is_noise_span, span_macros, strip, walk, alts, show
 
 INT_RANGES = {
@@ -780,7 +781,7 @@ def arith(op, a, b):
 EFFECT_PRIMS = [
     ("ANSWER", lambda c: c.name == "tokio::sync::oneshot::Sender::send" and "HtlcAcceptedResponse" in c.full),
     ("TABLE_INS", lambda c: c.name in ("std::collections::HashMap::entry", "std::collections::HashMap::insert") and "PaymentState" in c.full and "htlc_manager" in c.full),
-    ("TABLE_REM", lambda c: c.name == "std::collections::HashMap::remove" and "htlc_manager::PaymentState" in c.full),
+    ("TABLE_REM", lambda c: c.name == "std::collections::HashMap::remove" and NM.PS() in c.full),
     ("PAY", lambda c: c.is_trait_method("payment_provider::PaymentProvider", "pay") or c.is_trait_method("rpc::ClnRpc", "pay")),
     ("WAIT", lambda c: c.is_trait_method("payment_provider::PaymentProvider", "wait_payment") or c.is_trait_method("rpc::ClnRpc", "listsendpays") or c.is_trait_method("rpc::ClnRpc", "waitsendpay")),
     ("STORE_R", lambda c: c.is_trait_method("store::Datastore", "fetch_payment_info") or c.is_trait_method("rpc::ClnRpc", "listdatastore")),
